@@ -105,6 +105,44 @@ def nvars(sg, letter):
     return len(WYCKOFF_SETS[sg][letter]["variables"])
 
 
+def int_syntactic(x, e=None):
+    """x is an integer by its normal form: integer constant plus integer multiples of integer-declared symbols"""
+    from symx.values import INT_NAMES
+    if not isinstance(x, SReal):
+        return float(x) == int(x)
+    if x.d is not ONE:
+        return False
+    for m, c in x.n.t.items():
+        if c.denominator != 1:
+            return False
+        if m == ():
+            continue
+        if len(m) != 1 or m[0][1] != 1 or m[0][0] not in INT_NAMES:
+            return False
+    return True
+
+
+def canon_mod1(x):
+    """canonical key of x modulo the integers: monomials over non-integer symbols plus the constant mod 1; integer
+    multiples of integer-declared symbols are dropped.  None if the normal form is not of that shape."""
+    from symx.values import INT_NAMES
+    if not isinstance(x, SReal):
+        x = SReal(*lift(x))
+    if x.d is not ONE:
+        return None
+    items = []
+    const = F(0)
+    for m, c in x.n.t.items():
+        if m == ():
+            const = c % 1
+        elif len(m) == 1 and m[0][1] == 1 and m[0][0] in INT_NAMES:
+            if c.denominator != 1:
+                return None
+        else:
+            items.append((m, c))
+    return (tuple(sorted(items)), const)
+
+
 # --------------------------------------------------------------------------------------- independent letter oracle
 @functools.lru_cache(None)
 def row_points(sg, letter):
@@ -207,16 +245,16 @@ def make_dataset(e, sg, occupation, tag="", transform=None, order=None, wrap=Tru
                 raise ValueError(f"letter oracle: image of {sg}{letter} under transform is {L}")
         first = len(pos)
         # primitive-cell classes: atoms related by a centring translation share a primitive index
-        classes = []
+        classes = {}
         for p in pts:
             k = None
-            for ci, rep in enumerate(classes):
-                if any(LF([p.c[c][:3] + (p.c[c][3] - ct[c],) for c in range(3)]).congruent(rep) for ct in cents):
-                    k = ci
+            for ct in cents:
+                kk = tuple(p.c[c][:3] + ((p.c[c][3] - ct[c]) % 1,) for c in range(3))
+                if kk in classes:
+                    k = classes[kk]
                     break
             if k is None:
-                classes.append(p)
-                k = len(classes) - 1
+                k = classes[p.key()] = len(classes)
             prim.append((oi, k))
             v = p.sreal(xyz)
             pos.append([x % 1 for x in v] if wrap else v)
@@ -248,6 +286,32 @@ def make_dataset(e, sg, occupation, tag="", transform=None, order=None, wrap=Tru
     ds["_params"] = params
     ds["_occupation"] = list(occupation)
     return ds
+
+
+@functools.lru_cache(None)
+def rational_normalizers():
+    """copy of the normalizer table with exact fractions (0.33333333 -> 1/3; every entry must be within 5e-9 of a
+    fraction with denominator <= 48, which C14-T6a establishes) so that the code's arithmetic is exact"""
+    out = {}
+    for sg, lst in NORMALIZERS.items():
+        out[sg] = [{"permutations": dict(nz["permutations"]), "transformation": const_array([[q(v) for v in row] for row in np.asarray(nz["transformation"]).tolist()])} for nz in lst]
+    return out
+
+
+@functools.lru_cache(None)
+def rational_wyckoff_sets():
+    out = {}
+    for sg, info in WYCKOFF_SETS.items():
+        d = {}
+        for k, v in info.items():
+            if k == "translations":
+                d[k] = const_array([[q(x) for x in row] for row in np.asarray(v).tolist()]) if len(v) else np.zeros((0, 3), dtype=object)
+            else:
+                d[k] = {"expressions": v["expressions"], "variables": v["variables"],
+                        "matrices": const_array([[[q(x) for x in row] for row in M] for M in np.asarray(v["matrices"]).tolist()]),
+                        "constants": const_array([[q(x) for x in row] for row in np.asarray(v["constants"]).tolist()])}
+        out[sg] = d
+    return out
 
 
 class StubSystem(StubAtoms):
@@ -298,7 +362,8 @@ class Session:
     @contextlib.contextmanager
     def active(self):
         with contextlib.ExitStack() as st:
-            st.enter_context(patched(SA, np=NP, Atoms=StubAtoms, System=StubSystem, segfault_protect=self._protect))
+            st.enter_context(patched(SA, np=NP, Atoms=StubAtoms, System=StubSystem, segfault_protect=self._protect,
+                                     CHIRALITY_PRESERVING_EUCLIDEAN_NORMALIZERS=rational_normalizers(), WYCKOFF_SETS=rational_wyckoff_sets()))
             st.enter_context(patched(G, np=NP, Atoms=StubAtoms))
             if self.exact_wrap:
                 st.enter_context(patched(SA.matid.geometry, get_wrapped_positions=wrapped_exact))
@@ -338,3 +403,63 @@ def occupations(sg, max_orbits, species):
                 if ok:
                     out.append([(l, species[s]) for l, s in zip(combo, sp)])
     return out
+
+
+# --------------------------------------------------------------------------------------- concrete replay helpers
+def concrete_dataset(sg, occ, vals, transform=None, order=None):
+    """the SpglibContract dataset for concrete parameter values, as plain float/int arrays"""
+    ds = make_dataset(None, sg, occ, transform=transform, order=order, concrete_params=[[F(float(v)).limit_denominator(10 ** 9) for v in p] for p in vals])
+    out = Dataset(ds)
+    out["std_positions"] = np.array([[float(v.cval()) for v in row] for row in ds.std_positions], dtype=float).reshape(-1, 3)
+    out["std_lattice"] = np.array([[float(v) for v in row] for row in ds.std_lattice], dtype=float)
+    out["translations"] = np.array([[float(v.cval()) for v in row] for row in ds.translations], dtype=float)
+    out["wyckoffs"] = list(ds.wyckoffs)
+    return out
+
+
+class RealSession:
+    """real SymmetryAnalyzer, real numpy/ASE; only spglib's answer is scripted (the contract dataset)"""
+
+    def __init__(self, datasets, pbc=True):
+        from ase import Atoms
+        self.datasets = datasets
+        self.systems = [Atoms(numbers=d.std_types, scaled_positions=d.std_positions, cell=d.std_lattice, pbc=pbc) for d in datasets]
+        self.table = {id(s): d for s, d in zip(self.systems, datasets)}
+        self.an = None
+
+    def _protect(self, fn, description, tol):
+        return self.table[id(self.an._analyzed_system)]
+
+    @contextlib.contextmanager
+    def active(self):
+        with patched(SA, segfault_protect=self._protect):
+            yield self
+
+    def start(self, i=0, **kw):
+        self.an = SA.SymmetryAnalyzer.__new__(SA.SymmetryAnalyzer)
+        SA.SymmetryAnalyzer.__init__(self.an, self.systems[i], **kw)
+        return self.an
+
+    def switch(self, i):
+        self.an.set_system(self.systems[i])
+        return self.an
+
+
+def row_contains(sg, letter, p, tol=1e-5):
+    """numeric: is the fractional position p a point of Wyckoff row `letter` for some parameter values?"""
+    info = WYCKOFF_SETS[sg]
+    if letter not in info or letter == "translations":
+        return False
+    trans = [np.zeros(3)] + [np.array(t, dtype=float) for t in info["translations"]]
+    p = np.array(p, dtype=float)
+    for M, C in zip(info[letter]["matrices"], info[letter]["constants"]):
+        M = np.array(M, dtype=float)
+        C = np.array(C, dtype=float)
+        for t in trans:
+            base = p - C - t
+            for n in itertools.product((-2, -1, 0, 1, 2), repeat=3):
+                rhs = base - np.array(n)
+                W, *_ = np.linalg.lstsq(M.T, rhs, rcond=None)
+                if np.abs(M.T @ W - rhs).max() < tol:
+                    return True
+    return False
